@@ -5,6 +5,9 @@ import (
 	"context"
 	"errors"
 	"fmt"
+	"os"
+	"os/exec"
+	"path/filepath"
 	"strings"
 	"sync"
 	"time"
@@ -108,7 +111,83 @@ func c16Shapes() []c16Shape {
 	}
 }
 
+// c16PrintSchema: the schema the PROGRAM prints (`shovel -config FILE -print-schema`, the route taken with
+// -skip-migrate) applied statement by statement to an empty database: afterwards every column any integration of
+// the file writes exists — tables shared by integrations with different columns included.
+func c16PrintSchema(e *core.Env) {
+	defer removeShovelBinary()
+	ctx := context.Background()
+	verdict := func() string {
+		bin, err := buildShovelBinary(e)
+		if err != nil {
+			return "setup: " + err.Error()
+		}
+		igs := []config.Integration{transferIG("xfers", "token_events", []string{"block_time"}, nil), approvalIG("apprs", "token_events", []string{"block_time", "tx_input"}, nil),
+			txIG("txs", "t_txs", []string{"tx_hash", "tx_input"})}
+		var docs []string
+		for i := range igs {
+			docs = append(docs, igFileDoc(igs[i], "src1", 1))
+		}
+		dir, err := os.MkdirTemp("", "shovel-schema-")
+		if err != nil {
+			return "setup: " + err.Error()
+		}
+		defer os.RemoveAll(dir)
+		cf := filepath.Join(dir, "config.json")
+		os.WriteFile(cf, []byte(fmt.Sprintf(`{"pg_url": "postgres://unused", "eth_sources": [{"name": "src1", "chain_id": 7, "url": "http://127.0.0.1:1"}], "integrations": [%s]}`, strings.Join(docs, ","))), 0o600)
+		cmd := exec.Command(bin, "-config", cf, "-print-schema")
+		cmd.Dir = dir
+		var stdout, stderr bytes.Buffer
+		cmd.Stdout, cmd.Stderr = &stdout, &stderr
+		if err := cmd.Run(); err != nil {
+			return fmt.Sprintf("shovel -print-schema failed: %v: %s", err, lastLines(stderr.String(), 10))
+		}
+		pg := fakepg.New()
+		url, _ := pg.Start()
+		defer pg.Close()
+		pool, err := pgxpool.New(ctx, url)
+		if err != nil {
+			return "setup: " + err.Error()
+		}
+		defer func() { go pool.Close() }()
+		n := 0
+		for _, stmt := range strings.Split(stdout.String(), ";") {
+			if strings.TrimSpace(stmt) == "" {
+				continue
+			}
+			if strings.Contains(stmt, "shovel.") || strings.Contains(strings.ToLower(stmt), "create schema") {
+				continue // the program's own bookkeeping tables: not what this check is about
+			}
+			n++
+			if _, err := pool.Exec(ctx, stmt); err != nil {
+				return fmt.Sprintf("a printed statement is refused: %v: %s", err, trunc2(stmt))
+			}
+		}
+		if n == 0 {
+			return "shovel -print-schema printed no statement for the integrations' tables"
+		}
+		root := config.Root{Integrations: igs}
+		if err := config.ValidateFix(&root); err != nil {
+			return "setup: " + err.Error()
+		}
+		for _, ig := range root.Integrations {
+			have := map[string]bool{}
+			for _, c := range pg.Columns(ig.Table.Name) {
+				have[c.Name] = true
+			}
+			for _, c := range ig.Table.Columns {
+				if !have[c.Name] {
+					return fmt.Sprintf("integration %s writes column %q; the table %q built from the printed schema has no such column", ig.Name, c.Name, ig.Table.Name)
+				}
+			}
+		}
+		return "ok"
+	}()
+	e.Add(core.Case{Impl: verdict, Spec: "ok", Key: "c16-print-schema", Nontrivial: true, Tags: []string{"binary", "print-schema"}})
+}
+
 func runC16(e *core.Env) error {
+	c16PrintSchema(e)
 	r := e.Rand
 	shapes := c16Shapes()
 	ctx := context.Background()
